@@ -13,8 +13,10 @@ import (
 )
 
 type c19Step struct {
-	// Op: deliver, reopen (Closed then Opened(n+1)), bump (Opened(n+1) without Closed)
+	// Op: deliver, reopen (Closed then Opened(n+1)), bump (Opened(n+1) without Closed), consume (lazy application takes one message)
 	Op string `json:"op"`
+	// Reuse gives the delivery the message seqno of the previous delivery (a "retransmission")
+	Reuse bool `json:"reuse"`
 	// Kind of delivery: honest, other-signer (signed by C, claims A), claims-other (signed by C, says C),
 	// tampered-body, tampered-sig, unsigned, other-context, empty-body, from-mut
 	Kind string `json:"kind"`
@@ -22,6 +24,8 @@ type c19Step struct {
 
 type c19Case struct {
 	Steps []c19Step `json:"steps"`
+	// Lazy: the application only consumes on consume steps, so delivered messages stay pending in the client
+	Lazy bool `json:"lazy"`
 }
 
 var c19Kinds = []string{"honest", "honest", "honest", "other-signer", "claims-other", "tampered-body", "tampered-sig", "unsigned", "other-context", "empty-body"}
@@ -29,10 +33,12 @@ var c19Kinds = []string{"honest", "honest", "honest", "other-signer", "claims-ot
 func genC19(t *rapid.T) c19Case {
 	n := rapid.IntRange(1, 10).Draw(t, "n")
 	var c c19Case
+	c.Lazy = rapid.Bool().Draw(t, "lazy")
 	for i := 0; i < n; i++ {
-		st := c19Step{Op: rapid.SampledFrom([]string{"deliver", "deliver", "deliver", "deliver", "reopen", "bump"}).Draw(t, "op")}
+		st := c19Step{Op: rapid.SampledFrom([]string{"deliver", "deliver", "deliver", "deliver", "reopen", "bump", "consume"}).Draw(t, "op")}
 		if st.Op == "deliver" {
 			st.Kind = rapid.SampledFrom(c19Kinds).Draw(t, "kind")
+			st.Reuse = rapid.IntRange(0, 2).Draw(t, "reuse") == 0
 		}
 		c.Steps = append(c.Steps, st)
 	}
@@ -54,6 +60,10 @@ func checkC19(c c19Case) (o vstat.Outcome) {
 	ref := cl.AddPeerRef(gen.PeerID(0).String())
 	defer ref.Release()
 	ap := &app{}
+	if c.Lazy {
+		ap.gate = make(chan struct{}, 64)
+		o.Classes = append(o.Classes, "lazy-application")
+	}
 	go ap.run(ctx, ref)
 	sess := relay.nextSession(5 * time.Second)
 	if sess == nil {
@@ -70,6 +80,7 @@ func checkC19(c c19Case) (o vstat.Outcome) {
 	var honest []*signaling.SessionMsg
 	var hist []string
 	seq := uint64(0)
+	payloadN := 0
 	adversarial := 0
 	ensure := func() bool {
 		if !sess.isClosed() {
@@ -102,15 +113,31 @@ func checkC19(c c19Case) (o vstat.Outcome) {
 			sess.deliver(&signaling.SessionResponse{Body: &signaling.SessionResponse_Opened{Opened: epoch}})
 			hist = append(hist, "bump")
 			time.Sleep(settleWindow() / 3)
+		case "consume":
+			if ap.gate != nil {
+				select {
+				case ap.gate <- struct{}{}:
+				default:
+				}
+				time.Sleep(settleWindow() / 3)
+			}
+			hist = append(hist, "consume")
 		case "deliver":
-			seq++
-			m := mkMsg(st.Kind, 0, 2, []byte(fmt.Sprintf("payload-%d", seq)), seq)
+			if !(st.Reuse && seq > 0) {
+				seq++
+			} else {
+				o.Classes = append(o.Classes, "seqno-reuse")
+			}
+			payloadN++
+			m := mkMsg(st.Kind, 0, 2, []byte(fmt.Sprintf("payload-%d", payloadN)), seq)
 			before := ap.count()
 			sess.deliver(&signaling.SessionResponse{Body: &signaling.SessionResponse_RecvMsg{RecvMsg: m}})
 			hist = append(hist, "deliver:"+st.Kind)
 			if st.Kind == "honest" {
 				honest = append(honest, m)
-				if !waitFor(5*time.Second, func() bool { return ap.count() > before }) {
+				if c.Lazy {
+					time.Sleep(settleWindow() / 3)
+				} else if !waitFor(5*time.Second, func() bool { return ap.count() > before }) {
 					o.V = vstat.Viol("honest-message-not-surfaced", "after %v an honest message from A was not handed to the application", hist)
 					return
 				}
@@ -120,6 +147,16 @@ func checkC19(c c19Case) (o vstat.Outcome) {
 				// give the client time to (wrongly) surface it, or to tear the stream down
 				waitFor(settleWindow()*2, func() bool { return ap.count() > before || sess.isClosed() })
 			}
+		}
+	}
+	// a lazy application finally takes whatever is pending
+	if ap.gate != nil {
+		for i := 0; i < 3; i++ {
+			select {
+			case ap.gate <- struct{}{}:
+			default:
+			}
+			time.Sleep(settleWindow() / 2)
 		}
 	}
 	time.Sleep(settleWindow())
